@@ -23,10 +23,16 @@ ViewOK(got, v) ==          \* got: [gen, metagen, md5, size, attrs, meta : Seq([
 RespPrefix == <<114, 101, 115, 112, 111, 110, 115, 101, 45>>
 RespCid(c) == IF c = <<>> THEN <<>> ELSE IF Head(c) = 60 THEN <<60>> \o RespPrefix \o Tail(c) ELSE RespPrefix \o c
 
+\* a client that cannot handle a 308 answer asks (X-Guploader-No-308: yes) for "resume incomplete" to be delivered as
+\* 200 with the real status in X-Http-Status-Code-Override; it must then never see a plain 308
+No308(e) == "no308" \in DOMAIN e /\ e.no308
+EffCode(e, got) == IF No308(e) /\ got.code = 200 /\ got.override = 308 THEN 308 ELSE got.code
+
 RECURSIVE RespOK(_, _)
 RespOK(e, exp) ==
   LET got == e.resp IN
-  /\ got.code \in exp.codes
+  /\ EffCode(e, got) \in exp.codes
+  /\ No308(e) => got.code # 308
   /\ exp.ok =>
        CASE e.ev = "Batch" ->
               \* one sub-response per part, in the order of the parts, each what that request answers on the state the
@@ -35,7 +41,7 @@ RespOK(e, exp) ==
               /\ \A i \in 1..Len(e.parts) :
                     /\ RespOK([resp |-> got.parts[i].resp] @@ e.parts[i], exp.parts[i])
                     /\ got.parts[i].cid = RespCid(e.parts[i].cid)
-         [] e.ev \in {"Upload", "Compose"} \/ (e.ev = "ResumablePut" /\ got.code = 200) ->
+         [] e.ev \in {"Upload", "Compose"} \/ (e.ev = "ResumablePut" /\ EffCode(e, got) = 200) ->
               \* generation and metageneration agree between the reply body and the headers (C10)
               /\ got.view.gen = exp.gen /\ got.hgen = exp.gen /\ got.view.metagen = 1 /\ got.hmetagen = 1
               /\ got.view.md5 = exp.md5 /\ got.view.size = exp.size
